@@ -119,6 +119,9 @@ class _KalEval:
             self.env[p] = self.A.atom(p)
 
     def const_bool(self, node):
+        if isinstance(node, ast.Name) and isinstance(self.env.get(node.id), tuple) and \
+                self.env[node.id][0] == 'pyconst':
+            return self.env[node.id][1]
         try:
             return self.ctx.repo.fold(node, self.f.module)
         except ValueError:
@@ -319,6 +322,11 @@ class _KalEval:
             if isinstance(st, ast.Expr) and isinstance(st.value, ast.Constant):
                 continue
             if isinstance(st, ast.Assign) and len(st.targets) == 1 and \
+                    isinstance(st.targets[0], ast.Name) and isinstance(st.value, ast.Constant) \
+                    and isinstance(st.value.value, (bool, int, str)):
+                # a flag / mode bound to a local (`lower = True`)
+                self.env[st.targets[0].id] = ('pyconst', st.value.value)
+            elif isinstance(st, ast.Assign) and len(st.targets) == 1 and \
                     isinstance(st.targets[0], ast.Name):
                 self.env[st.targets[0].id] = self.ev(st.value)
             elif isinstance(st, ast.AugAssign) and isinstance(st.op, (ast.Add, ast.Sub)) and \
@@ -512,12 +520,18 @@ def vl_rules(ctx):
     E = None
     ret = None
 
+    big_alias = set()
+    named = {}       # local -> ast.Slice, for `head = slice(None, n)` / `tail = slice(n, None)`
+    sizes = {}       # local -> defining expression, for `size = 2 * n`
+
     def blk(sl, st):
         """slice pair -> block index"""
         if not (isinstance(sl, ast.Tuple) and len(sl.elts) == 2):
             return None
         out = []
         for s in sl.elts:
+            if isinstance(s, ast.Name) and s.id in named:
+                s = named[s.id]
             if not isinstance(s, ast.Slice) or s.step is not None:
                 return None
             lo = norm_text(s.lower) if s.lower else None
@@ -573,11 +587,34 @@ def vl_rules(ctx):
                 nvar = t.id
                 continue
             if isinstance(t, ast.Name) and isinstance(v, ast.Call) and \
+                    res(v.func) == 'builtins.slice' and 1 <= len(v.args) <= 2 and \
+                    not v.keywords:
+                a_ = [None if (isinstance(x, ast.Constant) and x.value is None) else x
+                      for x in v.args]
+                named[t.id] = ast.Slice(lower=None, upper=a_[0], step=None) if len(a_) == 1 \
+                    else ast.Slice(lower=a_[0], upper=a_[1], step=None)
+                continue
+            if isinstance(t, ast.Name) and isinstance(v, ast.BinOp) and nvar is None and \
+                    any(isinstance(n_, ast.Call) and res(n_.func) == 'builtins.len' and
+                        norm_text(n_.args[0]) in (F, Q) for n_ in ast.walk(v)):
+                sizes[t.id] = v          # `size = 2 * len(F)` before any `n = len(F)`
+                continue
+            if isinstance(t, ast.Name) and isinstance(v, ast.BinOp) and nvar is not None and \
+                    set(n_.id for n_ in ast.walk(v) if isinstance(n_, ast.Name)) <= \
+                    {nvar, F, Q, 'len'} and all(res(c_.func) == 'builtins.len'
+                                                for c_ in ast.walk(v) if isinstance(c_, ast.Call)):
+                sizes[t.id] = v
+                continue
+            if isinstance(t, ast.Name) and isinstance(v, ast.Call) and \
                     res(v.func) == 'numpy.zeros':
                 shp = norm_text(v.args[0])
                 dims = v.args[0].elts if isinstance(v.args[0], ast.Tuple) else []
+                dims = [sizes.get(d_.id, d_) if isinstance(d_, ast.Name) else d_ for d_ in dims]
+                nv_ = [nvar] if nvar else []
+                nv_ += ['len(%s)' % F, 'len(%s)' % Q]
                 ok = len(dims) == 2 and all(
-                    norm_text(d_) in ('2 * %s' % nvar, '%s * 2' % nvar, '%s + %s' % (nvar, nvar))
+                    norm_text(d_) in [x_ % ((n_,) * x_.count('%s')) for n_ in nv_
+                                      for x_ in ('2 * %s', '%s * 2', '%s + %s')]
                     for d_ in dims)
                 ctx.ob('VL-BLOCK', ok, None, 'block matrix is 2n x 2n', f=f, node=st,
                        why='block matrix allocated with shape %s' % shp)
@@ -592,11 +629,16 @@ def vl_rules(ctx):
                 if b is not None:
                     blocks[b] = (ev(v), st)
                 continue
+            if isinstance(t, ast.Name) and isinstance(v, ast.Name) and big is not None and \
+                    E is None and v.id in {big} | big_alias:
+                big_alias.add(t.id)          # another name for the assembled block matrix
+                continue
             if isinstance(t, ast.Name) and isinstance(v, ast.Call) and \
                     res(v.func) == 'scipy.linalg.expm':
                 arg = v.args[0]
                 ok = isinstance(arg, ast.BinOp) and isinstance(arg.op, ast.Mult) and \
-                    {norm_text(arg.left), norm_text(arg.right)} == {big, dt}
+                    any({norm_text(arg.left), norm_text(arg.right)} == {b_, dt}
+                        for b_ in {big} | big_alias)
                 ctx.ob('VL-BLOCK', ok, None, 'expm of (block matrix * dt)', f=f, node=st,
                        key='expm-arg', why='matrix exponential is taken of `%s`, expected '
                                            '`%s * %s`' % (norm_text(arg), big, dt))
